@@ -516,10 +516,18 @@ class CallMixin:
         # havoc frame
         s = s.copy()
         for spec in c.modifies:
+            target = None
+            if "@" in spec:
+                spec, target = spec.split("@")
             cls, field = spec.split(".")
             fty = self.reg.parse(self.reg.fields[cls][field])
-            s.heap[(cls, field)] = z3.Const(fresh_name(f"heap_{cls}_{field}"),
-                                            z3.ArraySort(self.reg.sort(self.reg.ty_of_class(cls)), self.reg.sort(fty)))
+            if target is not None:
+                # frame: only the named argument's slot may change
+                arr = self.heap_array(s, cls, field)
+                s.heap[(cls, field)] = z3.Store(arr, env[target].t, z3.Const(fresh_name(f"hv_{cls}_{field}"), self.reg.sort(fty)))
+            else:
+                s.heap[(cls, field)] = z3.Const(fresh_name(f"heap_{cls}_{field}"),
+                                                z3.ArraySort(self.reg.sort(self.reg.ty_of_class(cls)), self.reg.sort(fty)))
         for g in c.modifies_ghost:
             old = s.ghost.get(g)
             if old is not None and isinstance(old, Val) and not old.is_py:
@@ -550,12 +558,17 @@ class CallMixin:
             result = Val(NONE, None)
         else:
             result = self.fresh(ret, "ret_" + func.__name__)
+            if c.fresh_result and ret.kind == "ref":
+                news = dict(s.ghost.get("__new__", {}))
+                news[ret.name] = news.get(ret.name, []) + [result.t]
+                s.ghost["__new__"] = news
         if c.post is not None:
             amap = dict(env)
             amap["result"] = result
             gbound = []
+            self.begin_binder()
             for g, gty in c.ghost.items():
-                gc = z3.Const(fresh_name("gh_" + g), self.reg.sort(self.reg.parse(gty)))
+                gc = self.bound_const("gh_" + g, self.reg.sort(self.reg.parse(gty)))
                 gbound.append(gc)
                 amap[g] = Val(self.reg.parse(gty), gc)
             prev_unfold = self.unfold_specs
@@ -579,6 +592,14 @@ class CallMixin:
         if kind == "valid" and z3.is_expr(goal) and z3.is_and(goal) and goal.num_args() > 1:
             for k, g in enumerate(goal.children()):     # one obligation per conjunct: smaller queries, named failures
                 self.emit(s, f"{name}/c{k}", g, note=note, kind=kind)
+            return
+        if kind == "valid" and z3.is_expr(goal) and z3.is_eq(goal) and z3.is_bool(goal.arg(0)) and self._has_quant(goal):
+            a, b = goal.arg(0), goal.arg(1)          # quantified iff: one obligation per direction
+            self.emit(s.copy().assume(a), f"{name}/lr", b, note=note, kind=kind)
+            self.emit(s.copy().assume(b), f"{name}/rl", a, note=note, kind=kind)
+            return
+        if kind == "valid" and z3.is_expr(goal) and z3.is_implies(goal) and self._has_quant(goal):
+            self.emit(s.copy().assume(goal.arg(0)), f"{name}/imp", goal.arg(1), note=note, kind=kind)
             return
         if kind == "valid" and z3.is_expr(goal) and z3.is_true(z3.simplify(goal)):
             self.stats["trivial_obligations"] += 1
